@@ -28,6 +28,15 @@ def field_zp_bound(F):
     raise AnalysisBroken('Field_Zp::init: upper-bound guard `if (Prime > N) throw` not found')
 
 
+def elem_type(f):
+    """element type of the instantiation, from the template arguments of the enclosing class"""
+    ta = f.get('targs') or ''
+    for t in ('unsigned short', 'unsigned long', 'unsigned char', 'unsigned int'):
+        if t in ta.split('::')[0]:
+            return t
+    return 'unsigned int'
+
+
 def run_ranges(chk, F):
     n_fn = 0
     n_q = 0
@@ -39,8 +48,9 @@ def run_ranges(chk, F):
             if pmax < TABLE['field_zp_stated_max']:
                 chk.ob('E3-bound', 'Field_Zp::init accepts every prime <= %d' % TABLE['field_zp_stated_max'],
                        'Field_Zp.h', False, 'init refuses characteristics above %d' % pmax, key='E3|Field_Zp|bound')
-        cfg = absint.Config(spec['modulus'], 2, pmax, reduced_fields=spec.get('reduced_fields', ['element_']),
-                            helpers=spec.get('helpers', {}), modulus_params=spec.get('modulus_params', []))
+        cfg0 = absint.Config(spec['modulus'], 2, pmax, reduced_fields=spec.get('reduced_fields', ['element_']),
+                             helpers=spec.get('helpers', {}), modulus_params=spec.get('modulus_params', []))
+        cfg = cfg0
         fns = [f for f in F.functions if f.get('clsname') == cname and f['inst'] in (1, 2)]
         if not fns:
             raise AnalysisBroken('C10: class %s has no instantiated functions in the unit' % cname)
@@ -54,7 +64,16 @@ def run_ranges(chk, F):
                 continue
             seen += 1
             n_fn += 1
-            sig = '%s::%s(%s)' % (cname, f['name'], ', '.join(p.get('t', '?').split('::')[-1] for p in f['params']))
+            et = elem_type(f)
+            sig = '%s%s::%s(%s)' % (cname, '<%s>' % et if et != 'unsigned int' else '', f['name'],
+                                    ', '.join(p.get('t', '?').split('::')[-1] for p in f['params']))
+            # the modulus cannot exceed the element type
+            tmax = {'unsigned short': 65535, 'unsigned char': 255}.get(et)
+            if tmax is not None and tmax < cfg.pmax:
+                cfg = absint.Config(spec['modulus'], 2, tmax, reduced_fields=spec.get('reduced_fields', ['element_']),
+                                    helpers=spec.get('helpers', {}), modulus_params=spec.get('modulus_params', []))
+            else:
+                cfg = cfg0
             where = '%s:%d' % (rel(f['file']), f['line'])
             closure = role.get('closure', True)
             obs, q, npaths = absint.analyse(f, cfg, closure=closure, closure_refs=role.get('refs', []))
